@@ -19,7 +19,8 @@ RULE = (
     "a drawn subset of the parents explicit; lazy: .dir objects loaded lazily at drawn directory nodes incl. "
     "the root, the parents around them explicit or implicit), a prior workspace = T after drawn edits "
     "(modify, delete, add nested file / empty nested directories, file->directory and directory->file "
-    "replacement at any depth, remove subtree, chmod, wipe; dangling symlinks and symlinks to files outside "
+    "replacement at any depth - also a target file, optionally one of the deepest, whose place holds a directory "
+    "with a nested tree of workspace-only files and an empty nested directory -, remove subtree, chmod, wipe; dangling symlinks and symlinks to files outside "
     "the workspace at new paths or in place of any target file or directory), materialised as plain files or "
     "through a first index checkout with the same link type; every form with every link list (copy, "
     "hardlink, symlink, reflink+copy, hardlink+copy, symlink+copy; passed to apply or configured on the "
@@ -35,7 +36,10 @@ RULE = (
     "hashes. Oracle: os.walk of the workspace vs the flat model of T (files, bytes read through links, "
     "directories, x bits), a second compare(fresh old, freshly constructed target) with empty "
     "files_create/files_delete/dirs_create/dirs_delete (implicit directories included), survival of prior "
-    "files and directories outside T when delete is off, every unavailable source reported to the error "
+    "files and directories outside T when delete is off - including every file (same bytes), directory and "
+    "symlink that a prior directory holds whose path is a FILE in the target (the target has nothing below a "
+    "file, so all of it is outside the target; signature suffix :below-target-file; judged also when that "
+    "file's source is unavailable and after the retry) -, every unavailable source reported to the error "
     "callback, and (delete off) every target entry below a prior file that occupies the place of a directory "
     "the index has no entry for reported to the error callback. Non-trivial = prior non-empty and != T, "
     "holding a path T lacks (something to delete) and (a file<->directory kind change or a directory to "
@@ -61,9 +65,16 @@ ASSUMPTIONS = [
     "loud failure); after such an escape only clause (2) is judged (nothing outside the target removed or "
     "altered); a normal return that leaves such an entry neither placed nor reported is a violation. With "
     "delete on, and for every other exception, the exc: rule applies",
-    "nothing is asserted inside the subtree of an entry whose source is unavailable, nor (delete off) below a "
-    "target file whose path is occupied by a non-empty prior directory, nor (delete off) below a prior file that "
-    "occupies the place of a directory the index has no entry for - there only the error reports are asserted",
+    "nothing is asserted inside the subtree of an entry whose source is unavailable (except, delete off, the "
+    "survival of what a prior directory at the path of such a FILE entry holds, see below), nor (delete off) "
+    "below a prior file that occupies the place of a directory the index has no entry for - there only the "
+    "error reports are asserted",
+    "delete off and a target file whose path is occupied by a non-empty prior directory: the statement promises "
+    "only that nothing outside the target is removed, so the one thing asserted at and below that path is that "
+    "everything the directory held (files with their bytes, nested and empty directories, symlinks) is still "
+    "there. What becomes of the path itself is accepted as HEAD does it (rmdir fails on the non-empty "
+    "directory, it stays a directory, the file that cannot be placed goes to the error callback; temporary "
+    "copies left inside are not judged); it is left out of the workspace comparison and the second compare",
     "odd prior entries are dangling symlinks (documented in safe_walk/build_entries) and symlinks to outside "
     "files, placed anywhere; symlinks to directories are not generated: the quantifier is over trees of files "
     "and directories",
@@ -214,6 +225,17 @@ def apply_edits(model, edits):
             m.put_dir(k)
             for sub, content in ed[2]:
                 m.put_file((*k, *sub), gen.content_bytes(content))
+        elif op == "f2d_tree" and files:
+            # a target file (the deepest ones when ed[4]) is a directory that holds a nested tree of files the
+            # target does not have and, optionally, an empty nested directory
+            cands = sorted(files, key=lambda k: (-len(k), k))[:2] if ed[4] else files
+            k = cands[ed[1] % len(cands)]
+            m.remove_subtree(k)
+            m.put_dir(k)
+            for sub, data in _flat(ed[2]):
+                m.put_file((*k, *sub), data)
+            if ed[3]:
+                m.put_dir((*k, *ed[3]))
         elif op == "d2f" and len(dirs) > 1:
             k = dirs[1 + ed[1] % (len(dirs) - 1)]
             m.put_file(k, gen.content_bytes(ed[2]))
@@ -291,6 +313,7 @@ EDIT = st.one_of(
     st.tuples(st.just("add"), IDX, SEGS23, CONTENT, st.just(False)),
     st.tuples(st.just("mkdir"), IDX, SEGS13),
     st.tuples(st.just("f2d"), IDX, st.lists(st.tuples(SEGS13, CONTENT), min_size=0, max_size=2)),
+    st.tuples(st.just("f2d_tree"), IDX, SMALL_TREE, st.one_of(st.just([]), SEGS13), st.booleans()),
     st.tuples(st.just("d2f"), IDX, CONTENT),
     st.tuples(st.just("d2f_deep"), IDX, CONTENT),
     st.tuples(st.just("rmtree"), IDX),
@@ -802,21 +825,42 @@ def run_case(case, ctx):  # noqa: C901, PLR0912, PLR0915
                 if delete:
                     return out
                 after_files, after_dirs, _ax = walk(ws)
+
+                def below_target_file(k):
+                    # the path of a target file holds a directory in the workspace and this entry lies in it.
+                    # The target has nothing below a file, so the entry is outside the target as well: the
+                    # directory is not emptied for the sake of the file that should replace it.
+                    return any(k[:i] in T.files for i in range(1, len(k)))
+
+                # an unavailable source takes the listing of a directory out of judgement, but a target file
+                # whose object is gone has nothing below it either way
+                aff_dirs = [a for a in aff if a not in T.files]
+
+                def unjudged(k):
+                    return under(k, aff_dirs if below_target_file(k) else aff)
+
                 for e in prior.sorted_dirs():
-                    if e in T.files or e in T.dirs or under(e, aff) or e in after_dirs:
+                    if e in T.files or e in T.dirs or unjudged(e) or e in after_dirs:
                         continue
-                    if any(e[:i] in T.files for i in range(1, len(e))):
-                        continue
-                    out.append(Viol(f"{tag}delete-off:removed-outside-target",
+                    where = ":below-target-file" if below_target_file(e) else ""
+                    out.append(Viol(f"{tag}delete-off:removed-outside-target{where}",
                                     f"prior directory {_rel(e)} is outside the target but was removed"))
                 for k in prior.sorted_files():
-                    if k in T.files or k in T.dirs or under(k, aff):
+                    if k in T.files or k in T.dirs or unjudged(k):
                         continue
-                    if any(k[:i] in T.files for i in range(1, len(k))):
-                        continue  # lies below a target file: a conflict, not "outside the target"
+                    where = ":below-target-file" if below_target_file(k) else ""
                     if after_files.get(k) != prior.files[k]:
-                        out.append(Viol(f"{tag}delete-off:removed-outside-target",
+                        out.append(Viol(f"{tag}delete-off:removed-outside-target{where}",
                                         f"prior file {_rel(k)} is outside the target but was "
+                                        f"{'removed' if k not in after_files else 'altered'}"))
+                for k in sorted(prior.links):
+                    # odd entries are judged only inside such a directory: elsewhere a link at a target path
+                    # has to make way, and the existing arms say what happens to the others
+                    if not below_target_file(k) or unjudged(k):
+                        continue
+                    if k not in after_files or after_files[k] != prior.links[k]:
+                        out.append(Viol(f"{tag}delete-off:removed-outside-target:below-target-file",
+                                        f"prior symlink {_rel(k)} is outside the target but was "
                                         f"{'removed' if k not in after_files else 'altered'}"))
                 return out
 
@@ -969,6 +1013,23 @@ def run_case(case, ctx):  # noqa: C901, PLR0912, PLR0915
         classes.append("missing-file-source")
     if blocked:
         classes.append("delete-off:blocked-file")
+    d2f_off = set()
+    for t in [k for k in blocked if k in T.files]:
+        # a directory -> file change with deletion off: what the directory holds lies outside the target
+        n = len(t)
+        if any(f[:n] == t for f in prior.files):
+            d2f_off.add("delete-off:dir->file:holds-files")
+        if any(f[:n] == t and len(f) > n + 1 for f in prior.files):
+            d2f_off.add("delete-off:dir->file:holds-nested-files")
+        if any(e[:n] == t and e != t and not any(f[:len(e)] == e for f in prior.files) for e in prior.dirs):
+            d2f_off.add("delete-off:dir->file:holds-empty-dir")
+        if any(f[:n] == t for f in prior.links):
+            d2f_off.add("delete-off:dir->file:holds-link")
+        if n >= 2:
+            d2f_off.add("delete-off:dir->file:depth>=2")
+        if under(t, affected):
+            d2f_off.add("delete-off:dir->file:source-unavailable")
+    classes += sorted(d2f_off)
     if in_the_way:
         classes.append("delete-off:file-at-implicit-dir")
     if not delete and any((e in prior.files or e in prior.links) and e not in lazy and under(e, lazy)
